@@ -715,6 +715,10 @@ func checkC05(prop, tier string) int {
 	opsPerWL := map[string]int{}
 	for i, r := range results {
 		if r.Crashed || r.Err != "" {
+			if v := crashViolation(pool, "C05", jobs[i], r); v != nil {
+				viols = append(viols, *v)
+				continue
+			}
 			infra++
 			fmt.Fprintf(os.Stderr, "INFRA: c05 job %d: %s %s\n", i, r.Err, tail(r.Stderr, 600))
 			continue
